@@ -93,7 +93,19 @@ fn ident(s: &Sx) -> ast::Ident<'static> {
     let js = leak(format!(
         "{{\"offset\":{off},\"line\":{line},\"fragment\":\"{name}\",\"extra\":null}}"
     ));
-    let id: ast::Ident<'static> = serde_json::from_str(js).expect("ident json");
+    let id: ast::Ident<'static> = match serde_json::from_str(js) {
+        Ok(id) => id,
+        Err(e) => {
+            // the library's identifier decoder refuses the text the library's encoder writes:
+            // the program cannot be built (reported as `(nobuild ..)`; a C20 failure, not a crash
+            // of the analysis)
+            IDENT_DECODE.with(|c| {
+                c.borrow_mut().get_or_insert_with(|| format!("identifier text {js} does not decode: {e}"));
+            });
+            NOBUILD.with(|c| c.set(true));
+            return ast::Ident::new(leak(name.to_string()));
+        }
+    };
     // an identifier away from (1,0) exists only through the codec: the text just decoded must
     // give back the location and fragment it states (C20, checked in `codec` mode)
     if id.location_line() != line || id.location_offset() != off || id.fragment() != name {
@@ -113,6 +125,7 @@ fn ident(s: &Sx) -> ast::Ident<'static> {
 
 thread_local! {
     static IDENT_DECODE: RefCell<Option<String>> = const { RefCell::new(None) };
+    static NOBUILD: std::cell::Cell<bool> = const { std::cell::Cell::new(false) };
 }
 
 fn prim_ty(a: &str) -> ast::PrimitiveTypes {
@@ -1070,12 +1083,18 @@ fn work(mode: &str, input: &str, output: &str) {
             continue;
         }
         IDENT_DECODE.with(|c| *c.borrow_mut() = None);
+        NOBUILD.with(|c| c.set(false));
         let built = std::panic::catch_unwind(|| program(&sx::parse(&line)));
         let Ok(prog) = built else {
             eprintln!("harness: malformed input at line {}", lineno + 1);
             std::process::exit(3);
         };
+        let nobuild = NOBUILD.with(std::cell::Cell::get);
         let res = match mode {
+            "run" | "json" if nobuild => format!(
+                "(nobuild {})",
+                quote(&IDENT_DECODE.with(|c| c.borrow().clone()).unwrap_or_default())
+            ),
             "run" => analyse(&prog).unwrap_or_else(|| "(panic)".to_string()),
             "codec" => {
                 let r = std::panic::catch_unwind(std::panic::AssertUnwindSafe(|| codec_check(&prog)));
